@@ -83,8 +83,19 @@ CLAIMED["C14"] = (
     "or run.",
     _NOTE, "DESIGN.md section 5, C14")
 
+CLAIMED["C13"] = (
+    "attribute-existence rule on exporter handlers; exporter/importer operator "
+    "tables against the interpreter's ast operator tables and the node "
+    "denotation table; ast def-use rules on compile(); CompileMapper's printer "
+    "table regrouped by Python's own grammar (ast.parse of checker-built source)",
+    "Each exporter handler, importer table entry and compile() step is a finite "
+    "fact checked for all expressions at once; the generated source of every "
+    "2-level nesting is regrouped by Python's parser and must denote the same "
+    "tree. Generated code is never executed.",
+    _NOTE, "DESIGN.md section 5, C13")
+
 for _p in ["C01", "C02", "C03", "C05", "C10", "C11",
-           "C12", "C13", "C15", "C16", "C17", "C19"]:
+           "C12", "C15", "C16", "C17", "C19"]:
     NOT_APPLICABLE[_p] = ("check under construction in this revision (see "
                           "DESIGN.md for the planned static rule)")
 NOT_APPLICABLE["C18"] = (
